@@ -32,6 +32,7 @@ class Suite:
     imports = []          # Coq modules (under TV) needed by model_fn
     model_fn = None       # Coq function : input -> V   (None = oracle-only suite, no Coq side)
     shard = 400
+    mismatch_is_violation = False   # True: the Coq side is the property's reference model itself
 
     def gen(self, tier, rng):
         """yield JSON-serialisable cases"""
@@ -245,6 +246,10 @@ def main_check(mod, tier, seed, replay=None):
                     {"case": res["cases"][i], "impl": repr(res["results"][i][1]), "model": mo[-1500:]})
         for i, f in res["failures"]:
             all_failures.append((s, res["cases"][i], res["results"][i][1], f))
+        if s.mismatch_is_violation:
+            for md in res.get("mismatch_detail", [])[:3]:
+                all_failures.append((s, md["case"], md["impl"],
+                                     "the implementation's observable trace differs from the reference model's: " + md["model"][-600:]))
         suite_reports.append({k: res[k] for k in ("suite", "evaluations", "distinct", "distinct_nontrivial",
                                                   "klasses", "t_impl", "t_coq")}
                              | {"mismatches": len(res["mismatches"]), "oracle_failures": len(res["failures"]),
